@@ -181,6 +181,20 @@ func CounterpartHits(p *model.Prog) []counterpartHit {
 								}
 							}
 						}
+					case *ast.BinaryExpr:
+						// a value obtained from one codec package compared with a constant of its
+						// counterpart package (hevc.ParseNaluType(b) == avc.NaluTypeAud)
+						if x.Op == token.EQL || x.Op == token.NEQ {
+							lp, rp := pkgsUsedIn(info, x.X), pkgsUsedIn(info, x.Y)
+							for _, pr := range [][2]string{{"avc", "hevc"}} {
+								for k := 0; k < 2; k++ {
+									a, b := pr[k], pr[1-k]
+									if lp[a] && !lp[b] && rp[b] && !rp[a] {
+										out = append(out, counterpartHit{Fn: fname, Target: "value of package " + a, Source: "constant of package " + b, Pair: a + "/" + b + ", compared across codecs", Pos: p.Pos(x.Pos())})
+									}
+								}
+							}
+						}
 					case *ast.AssignStmt:
 						if len(x.Lhs) != len(x.Rhs) || (x.Tok != token.ASSIGN && x.Tok != token.DEFINE) {
 							return true
@@ -416,4 +430,20 @@ func typeOfIdent(info *types.Info, e ast.Expr) types.Type {
 		return tv.Type
 	}
 	return nil
+}
+
+// pkgsUsedIn: the names of the packages whose members the expression refers to (pkg.Member).
+func pkgsUsedIn(info *types.Info, e ast.Expr) map[string]bool {
+	out := map[string]bool{}
+	ast.Inspect(e, func(n ast.Node) bool {
+		if sel, ok := n.(*ast.SelectorExpr); ok {
+			if id, isId := sel.X.(*ast.Ident); isId {
+				if pn, isPkg := info.Uses[id].(*types.PkgName); isPkg {
+					out[pn.Imported().Name()] = true
+				}
+			}
+		}
+		return true
+	})
+	return out
 }
